@@ -16,6 +16,24 @@ static void n_desc(uint64_t idx, void *ctx, char *b, size_t n)
  * NULL call must end like the first, not carry on with the NULL object */
 static const null_case_t *g_again;
 static void again_at_exit(void) { res_t r; memset(&r, 0, sizeof r); if (g_again) { const null_case_t *c = g_again; g_again = NULL; c->fn(&r); } }
+/* "no effect" for the configuration module, whose state is hidden in file-scope tables: the refused call is made on an initialised subsystem with one
+ * registered context, and ordinary use afterwards must go on exactly as if the call had not been made (next IDs, context lookup, handler calls) */
+static int g_cb, g_cl, g_ce; static unsigned char g_id1;
+static void *count_ctx(spif_charptr_t b, void *s) { if (*b == SPIFCONF_BEGIN_CHAR) g_cb++; else if (*b == SPIFCONF_END_CHAR) g_ce++; else g_cl++; return s; }
+static void conf_before(void) { spifconf_init_subsystem(); g_id1 = spifconf_register_context((spif_charptr_t) "first", count_ctx); }
+static int conf_after(void)
+{
+    static char line[] = "second some attribute";
+    if (g_id1 != 1) return 1;
+    if (spifconf_register_context((spif_charptr_t) "second", count_ctx) != 2) return 2;
+    if (spifconf_register_builtin("zzb", stub_builtin) != 7) return 3;
+    if (spifconf_register_fstate(NULL, (spif_charptr_t) "<p>", NULL, 1, 0) != 1) return 4;
+    fstate_idx--;
+    spifconf_parse_line(NULL, (spif_charptr_t) line);
+    if (g_cb != 1 || g_cl != 1 || g_ce != 1) return 5;
+    if (spifconf_register_context_state(0) != 1) return 6;
+    return 0;
+}
 static void n_case(uint64_t idx, void *ctx)
 {
     const null_case_t *c = &NULL_CASES[idx / NCELL]; int level = LEVELS[idx % NCELL], silent = SILENT[idx % NCELL]; (void) ctx;
@@ -30,7 +48,10 @@ static void n_case(uint64_t idx, void *ctx)
         mc_child_reset();
         libast_debug_level = (unsigned) level; libast_set_silent(silent ? TRUE : FALSE);
         if (level >= 1) { g_again = c; mc_exit_hook = again_at_exit; }
+        int conf = !strncmp(c->func, "spifconf_", 9);
+        if (conf) conf_before();
         c->fn(&r);
+        if (conf) r.aftermath = conf_after();
         if (write(rp[1], &r, sizeof r) != sizeof r) _exit(9);
         _exit(0);
     }
@@ -52,6 +73,7 @@ static void n_case(uint64_t idx, void *ctx)
     } else if (WIFEXITED(st) && WEXITSTATUS(st) == 0 && got == (ssize_t) sizeof r && r.returned) {
         if (!r.ret_ok) FAIL(site, "model:failure-value", shape, "returned something other than the stated failure value %s", c->val);
         if (r.arg_changed) FAIL(site, "model:argument-changed", shape, "argument %d was modified by the failing call", r.arg_changed);
+        if (r.aftermath) FAIL(site, "model:effect", shape, "ordinary use of the configuration module after the refused call differs from use without it (step %d: 2 next context ID, 3 next builtin ID, 4 next file-state index, 5 context lookup and handler calls, 6 next context-state index)", r.aftermath);
         if (r.alloc_delta) FAIL(site, "model:allocated", shape, "the failing call changed the heap by %ld bytes", r.alloc_delta);
     } else FAIL(site, "crash:exit", shape, "the call ended the process with status 0x%x", st);
     mc_nontrivial();
